@@ -1,7 +1,8 @@
 """F16a / F16b (C16): native witnesses against the real CookieJar.  exit 1 = defect reproduces.
   a: a cookie with Path=/foo// was filed under /foo (rstrip) and sent to /foo/bar, which it does not path-match
   b: host-only cookie n on /a; a second n on /b expires -> the shared (domain, n) host-only flag was dropped and the
-     /a cookie started to be sent to sub.example.com"""
+     /a cookie started to be sent to sub.example.com
+  c: a cookie re-set with Expires at the epoch (timestamp 0) was not deleted"""
 import asyncio, sys
 from http.cookies import SimpleCookie
 from yarl import URL
@@ -13,6 +14,10 @@ async def main(which):
     if which == "a":
         jar.update_cookies(SimpleCookie("a=1; Path=/foo//"), URL("http://example.com/"))
         sent = [m.key for m in jar.filter_cookies(URL("http://example.com/foo/bar")).values()]
+    elif which == "c":
+        jar.update_cookies(SimpleCookie("n=v"), URL("http://example.com/"))
+        jar.update_cookies(SimpleCookie("n=deleted; Expires=Thu, 01 Jan 1970 00:00:00 GMT"), URL("http://example.com/"))
+        sent = [m.key for m in jar.filter_cookies(URL("http://example.com/")).values()]
     else:
         jar.update_cookies(SimpleCookie("n=A; Path=/a"), URL("http://example.com/"))
         jar.update_cookies(SimpleCookie("n=B; Path=/b; Max-Age=0"), URL("http://example.com/"))
